@@ -259,6 +259,8 @@ func checkC08(e *Env) {
 	e.requireResult("RESULT", chi, gate.Outcome{Kind: gate.ErrNil, Idx: 1}, 0,
 		`(const:"sha256-" + call:(*base64.Encoding).EncodeToString(global:base64.StdEncoding,call:sha256.Sum256(call:(*bytes.Buffer).Bytes(local:headerBuf))))`,
 		`"sha256-" + base64(SHA-256(header bytes))`)
+	// header values enter the CBOR as they are, joined with ","
+	e.requireResult("RESULT", e.fn("signedexchange.normalizeHeaderValues"), gate.Outcome{Kind: gate.AnyReturn}, 0, `call:strings.Join(param:values,const:",")`, "the field values as-is, joined with ','")
 	// the canonical CBOR the signed headers are serialized in: shortest heads
 	// (the ladder shared with C04/C11/C12)
 	encoderHeadTable(e)
